@@ -199,6 +199,8 @@ PROPS["C20"] = dict(
 )
 
 PROPS["C20"]["pre"] = GEN_BOTH
+for _k in ("C08", "C11", "C12", "C14", "C18", "C19"):
+    PROPS[_k]["pre"] = GEN_BOTH
 
 HOOK_COMMITS = ["9ece5a5"]
 NOT_APPLICABLE = {}
